@@ -37,7 +37,12 @@ impl World {
     pub uninterp spec fn reliable(f: Arc<VFS>) -> bool;
     /// two filesystem instances that share no state (static relation; e.g. two MemoryFS::new() values)
     pub uninterp spec fn indep(f: Arc<VFS>, g: Arc<VFS>) -> bool;
+    /// C20 ghost counter: how many calls into an underlying filesystem have returned an I/O error so far (observers included)
+    pub uninterp spec fn faults(&self) -> nat;
 }
+pub open spec fn io_fault<T>(r: VfsResult<T>) -> bool { r is Err && ekind(r->Err_0) is IoError }
+pub open spec fn fault_step(w1: World, w2: World, failed: bool) -> bool { w2.faults() == w1.faults() + (if failed { 1nat } else { 0nat }) }
+pub open spec fn no_fault(w1: World, w2: World) -> bool { w2.faults() == w1.faults() }
 pub open spec fn world_same(w1: World, w2: World) -> bool {
     &&& forall|g: Arc<VFS>| #[trigger] w2.tree(g) == w1.tree(g)
     &&& w2.mutlog() == w1.mutlog()
@@ -56,19 +61,19 @@ impl World {
     #[verifier::external_body]
     pub fn exists(&mut self, fs: &Arc<VFS>, path: &str) -> (r: VfsResult<bool>)
         requires canonical(path@)
-        ensures world_same(*old(self), *final(self)), tc_exists(old(self).tree(*fs), path@, r, final(self).tree(*fs)),
+        ensures fault_step(*old(self), *final(self), io_fault(r)), world_same(*old(self), *final(self)), tc_exists(old(self).tree(*fs), path@, r, final(self).tree(*fs)),
                 World::reliable(*fs) ==> r is Ok,
     { unimplemented!() }
     #[verifier::external_body]
     pub fn metadata(&mut self, fs: &Arc<VFS>, path: &str) -> (r: VfsResult<VfsMetadata>)
         requires canonical(path@)
-        ensures world_same(*old(self), *final(self)), tc_metadata(old(self).tree(*fs), path@, r, final(self).tree(*fs)),
+        ensures fault_step(*old(self), *final(self), io_fault(r)), world_same(*old(self), *final(self)), tc_metadata(old(self).tree(*fs), path@, r, final(self).tree(*fs)),
                 World::reliable(*fs) && old(self).tree(*fs).contains_key(path@) ==> r is Ok,
     { unimplemented!() }
     #[verifier::external_body]
     pub fn read_dir(&mut self, fs: &Arc<VFS>, path: &str) -> (r: VfsResult<std::vec::IntoIter<String>>)
         requires canonical(path@)
-        ensures world_same(*old(self), *final(self)),
+        ensures fault_step(*old(self), *final(self), io_fault(r)), world_same(*old(self), *final(self)),
                 r is Ok ==> tc_read_dir_ok(old(self).tree(*fs), path@, string_views(r->Ok_0.remaining()), final(self).tree(*fs)) && r->Ok_0.decrease() is Some,
                 r is Err ==> tc_read_dir_err(old(self).tree(*fs), path@, r->Err_0, final(self).tree(*fs)),
                 World::reliable(*fs) && is_dir_at(old(self).tree(*fs), path@) ==> r is Ok,
@@ -76,7 +81,7 @@ impl World {
     #[verifier::external_body]
     pub fn open_file(&mut self, fs: &Arc<VFS>, path: &str) -> (r: VfsResult<Box<ReadHandle>>)
         requires canonical(path@)
-        ensures world_same_mod_accessed(*old(self), *final(self)),
+        ensures fault_step(*old(self), *final(self), io_fault(r)), world_same_mod_accessed(*old(self), *final(self)),
                 r is Ok ==> tc_open_file_ok(old(self).tree(*fs), path@, rh_bytes(*r->Ok_0), rh_pos(*r->Ok_0), final(self).tree(*fs)),
                 r is Err ==> tc_open_file_err(old(self).tree(*fs), path@, r->Err_0, final(self).tree(*fs)),
                 World::reliable(*fs) && is_file_at(old(self).tree(*fs), path@) ==> r is Ok,
@@ -84,13 +89,13 @@ impl World {
     #[verifier::external_body]
     pub fn create_dir(&mut self, fs: &Arc<VFS>, path: &str) -> (r: VfsResult<()>)
         requires canonical(path@)
-        ensures world_mutated_at(*old(self), *final(self), *fs, path@), tc_create_dir(old(self).tree(*fs), path@, r, final(self).tree(*fs)),
+        ensures fault_step(*old(self), *final(self), io_fault(r)), world_mutated_at(*old(self), *final(self), *fs, path@), tc_create_dir(old(self).tree(*fs), path@, r, final(self).tree(*fs)),
                 World::reliable(*fs) ==> tcp_create_dir(old(self).tree(*fs), path@, r),
     { unimplemented!() }
     #[verifier::external_body]
     pub fn create_file(&mut self, fs: &Arc<VFS>, path: &str) -> (r: VfsResult<Box<WriteHandle>>)
         requires canonical(path@)
-        ensures world_mutated_at(*old(self), *final(self), *fs, path@),
+        ensures fault_step(*old(self), *final(self), io_fault(r)), world_mutated_at(*old(self), *final(self), *fs, path@),
                 r is Ok ==> wh_fs(*r->Ok_0) == *fs && tc_create_file_ok(old(self).tree(*fs), path@, wh_dest(*r->Ok_0), wh_buf(*r->Ok_0), wh_pos(*r->Ok_0), final(self).tree(*fs)),
                 r is Err ==> final(self).tree(*fs) =~= old(self).tree(*fs) && kind_neutral(r->Err_0),
                 World::reliable(*fs) ==> tcp_create_file(old(self).tree(*fs), path@, r is Ok),
@@ -98,7 +103,7 @@ impl World {
     #[verifier::external_body]
     pub fn append_file(&mut self, fs: &Arc<VFS>, path: &str) -> (r: VfsResult<Box<WriteHandle>>)
         requires canonical(path@)
-        ensures world_mutated_at(*old(self), *final(self), *fs, path@),
+        ensures fault_step(*old(self), *final(self), io_fault(r)), world_mutated_at(*old(self), *final(self), *fs, path@),
                 r is Ok ==> wh_fs(*r->Ok_0) == *fs && tc_append_file_ok(old(self).tree(*fs), path@, wh_dest(*r->Ok_0), wh_buf(*r->Ok_0), wh_pos(*r->Ok_0), final(self).tree(*fs)),
                 r is Err ==> tc_fail_unchanged(old(self).tree(*fs), path@, r->Err_0, final(self).tree(*fs)),
                 World::reliable(*fs) && is_file_at(old(self).tree(*fs), path@) ==> r is Ok,
@@ -106,29 +111,29 @@ impl World {
     #[verifier::external_body]
     pub fn remove_file(&mut self, fs: &Arc<VFS>, path: &str) -> (r: VfsResult<()>)
         requires canonical(path@)
-        ensures world_mutated_at(*old(self), *final(self), *fs, path@), tc_remove_file(old(self).tree(*fs), path@, r, final(self).tree(*fs)),
+        ensures fault_step(*old(self), *final(self), io_fault(r)), world_mutated_at(*old(self), *final(self), *fs, path@), tc_remove_file(old(self).tree(*fs), path@, r, final(self).tree(*fs)),
                 World::reliable(*fs) ==> tcp_remove_file(old(self).tree(*fs), path@, r),
     { unimplemented!() }
     #[verifier::external_body]
     pub fn remove_dir(&mut self, fs: &Arc<VFS>, path: &str) -> (r: VfsResult<()>)
         requires canonical(path@)
-        ensures world_mutated_at(*old(self), *final(self), *fs, path@), tc_remove_dir(old(self).tree(*fs), path@, r, final(self).tree(*fs)),
+        ensures fault_step(*old(self), *final(self), io_fault(r)), world_mutated_at(*old(self), *final(self), *fs, path@), tc_remove_dir(old(self).tree(*fs), path@, r, final(self).tree(*fs)),
                 World::reliable(*fs) ==> tcp_remove_dir(old(self).tree(*fs), path@, r),
     { unimplemented!() }
     #[verifier::external_body]
     pub fn set_creation_time(&mut self, fs: &Arc<VFS>, path: &str, time: SystemTime) -> (r: VfsResult<()>)
         requires canonical(path@)
-        ensures world_mutated_at(*old(self), *final(self), *fs, path@), tc_set_time(old(self).tree(*fs), path@, TimeField::Created, time, r, final(self).tree(*fs))
+        ensures fault_step(*old(self), *final(self), io_fault(r)), world_mutated_at(*old(self), *final(self), *fs, path@), tc_set_time(old(self).tree(*fs), path@, TimeField::Created, time, r, final(self).tree(*fs))
     { unimplemented!() }
     #[verifier::external_body]
     pub fn set_modification_time(&mut self, fs: &Arc<VFS>, path: &str, time: SystemTime) -> (r: VfsResult<()>)
         requires canonical(path@)
-        ensures world_mutated_at(*old(self), *final(self), *fs, path@), tc_set_time(old(self).tree(*fs), path@, TimeField::Modified, time, r, final(self).tree(*fs))
+        ensures fault_step(*old(self), *final(self), io_fault(r)), world_mutated_at(*old(self), *final(self), *fs, path@), tc_set_time(old(self).tree(*fs), path@, TimeField::Modified, time, r, final(self).tree(*fs))
     { unimplemented!() }
     #[verifier::external_body]
     pub fn set_access_time(&mut self, fs: &Arc<VFS>, path: &str, time: SystemTime) -> (r: VfsResult<()>)
         requires canonical(path@)
-        ensures world_mutated_at(*old(self), *final(self), *fs, path@), tc_set_time(old(self).tree(*fs), path@, TimeField::Accessed, time, r, final(self).tree(*fs))
+        ensures fault_step(*old(self), *final(self), io_fault(r)), world_mutated_at(*old(self), *final(self), *fs, path@), tc_set_time(old(self).tree(*fs), path@, TimeField::Accessed, time, r, final(self).tree(*fs))
     { unimplemented!() }
 }
 // ---- iterator adapter stand-in (rule R8): `it.map(f)` over a listing, eagerly; elementwise closure contract
@@ -157,7 +162,7 @@ impl World {
     /// what flush/drop publish - proved in U03 - and sessions are atomic per C01's exclusions).
     #[verifier::external_body]
     pub fn io_copy(&mut self, src: &mut Box<ReadHandle>, dest: &mut Box<WriteHandle>) -> (r: std::io::Result<u64>)
-        ensures final(self).mutlog() == old(self).mutlog(),
+        ensures final(self).mutlog() == old(self).mutlog(), fault_step(*old(self), *final(self), r is Err),
                 forall|g: Arc<VFS>| g != wh_fs(**old(dest)) && World::indep(wh_fs(**old(dest)), g) ==> #[trigger] final(self).tree(g) == old(self).tree(g),
                 changed_only_at(old(self).tree(wh_fs(**old(dest))), final(self).tree(wh_fs(**old(dest))), wh_dest(**old(dest))),
                 wh_fs(**final(dest)) == wh_fs(**old(dest)) && wh_dest(**final(dest)) == wh_dest(**old(dest)),
@@ -171,7 +176,7 @@ impl World {
     #[verifier::external_body]
     pub fn copy_file(&mut self, fs: &Arc<VFS>, src: &str, dest: &str) -> (r: VfsResult<()>)
         requires canonical(src@), canonical(dest@)
-        ensures forall|g: Arc<VFS>| g != *fs && World::indep(*fs, g) ==> #[trigger] final(self).tree(g) == old(self).tree(g),
+        ensures fault_step(*old(self), *final(self), io_fault(r)), forall|g: Arc<VFS>| g != *fs && World::indep(*fs, g) ==> #[trigger] final(self).tree(g) == old(self).tree(g),
                 final(self).mutlog() == old(self).mutlog().insert((*fs, dest@)) || final(self).mutlog() == old(self).mutlog(),
                 tc_copy_file(old(self).tree(*fs), src@, dest@, r, final(self).tree(*fs)),
     { unimplemented!() }
@@ -181,7 +186,7 @@ impl World {
     #[verifier::external_body]
     pub fn move_file(&mut self, fs: &Arc<VFS>, src: &str, dest: &str) -> (r: VfsResult<()>)
         requires canonical(src@), canonical(dest@)
-        ensures forall|g: Arc<VFS>| g != *fs && World::indep(*fs, g) ==> #[trigger] final(self).tree(g) == old(self).tree(g),
+        ensures fault_step(*old(self), *final(self), io_fault(r)), forall|g: Arc<VFS>| g != *fs && World::indep(*fs, g) ==> #[trigger] final(self).tree(g) == old(self).tree(g),
                 forall|f: Arc<VFS>, q: Seq<char>| #[trigger] final(self).mutlog().contains((f, q)) && !old(self).mutlog().contains((f, q)) ==> f == *fs && (q == src@ || q == dest@),
                 tc_move_file(old(self).tree(*fs), src@, dest@, r, final(self).tree(*fs)),
     { unimplemented!() }
